@@ -38,6 +38,12 @@ _item_id = D.queue_item_id
 KW_NAMES = ["k", "callback", "extra", "args", "kwargs", "future", "timeout", "block", "result", "name", "daemon", "target"]
 
 
+def returned_object(tid):
+    """What a returning task returns: any object - falsy ones, an exception instance that is
+    returned and not raised, a class"""
+    return [object(), None, False, (), ValueError("returned, not raised"), 0, OSError, object(), ""][tid % 9]
+
+
 def task_kwargs(tid):
     return {"k": -tid, KW_NAMES[tid % len(KW_NAMES)]: tid}
 
@@ -174,7 +180,7 @@ def run_program(prog, chooser, lines=False, policy=(), max_steps=150000):
 
     def make_task(kind, tid):
         info = {"kind": kind, "begun": 0, "ended": 0, "put_phase": None, "put_epoch": None,
-                "ret": object(), "exc": BadStrError() if kind == "raise-badstr" else ValueError("task %d" % tid), "future": None, "by": None}
+                "ret": returned_object(tid), "exc": BadStrError() if kind == "raise-badstr" else ValueError("task %d" % tid), "future": None, "by": None}
         tasks[tid] = info
         gate = None
         if kind == "gate":
